@@ -10,8 +10,9 @@ from .. import common, findings, outfamily, pipeline
 
 def main(tier):
     run = common.Run("C12", "translation_validation", tier)
-    S = pipeline.Session()
-    outs = outfamily.collect(run, S, tier, "own")
+    # both layouts: with EXEC_CLASSES every created operation is emitted, also one that nothing consumes
+    S = pipeline.Session(layouts=("rs", "ec"))
+    outs = outfamily.collect(run, S, tier, "own", layouts=("rs", "ec"), corpus_n=110, gen_scale=0.7)
     res = outfamily.run_checks(S, outs.items)
     bad = 0
     variables = 0
@@ -28,6 +29,8 @@ def main(tier):
         variables += r["decls"]
         if r["ownership"] and findings.output_signature(it["src"], r["ownership"]) and run.known("dead_arm_operand", {"source": it["src"], "problems": r["ownership"][:2]}):
             bad += 1
+        elif r["ownership"] and findings.valueless_signature(it["src"], r["ownership"]) and run.known("valueless_expression_statement", {"source": it["src"], "problems": r["ownership"][:2]}):
+            bad += 1
         elif r["ownership"]:
             bad += 1
             for pr in r["ownership"][:3]:
@@ -43,7 +46,7 @@ def main(tier):
         "programs": len(texts), "disagreements_checked": bad, "samples": samples or [{"note": "none"}],
         "evaluations": len(outs.items), "distinct_nontrivial": len(texts),
         "variables_counted": variables, "texts_by_kind": dict(collections.Counter(it["kind"] for it in outs.items)),
-        "compiles": outs.compiled, "rejected": dict(outs.rejected), "grammar_rules_reached": len(outs.rules),
+        "compiles": outs.compiled, "layouts": ["READ_STATEMENTS", "EXEC_CLASSES"], "rejected": dict(outs.rejected), "grammar_rules_reached": len(outs.rules),
     }, hard_inconclusive=None if variables > 0 else "no variable counted")
 
 
